@@ -732,6 +732,20 @@ def mutate_case(R, r, t, d, e, obj, view, cls, cache, buf, ops, exp, cctx, sx):
 
                 nd_ = ("ARR", shape2, mk2(shape2))
                 ne = None
+            if st[0] == "string" and kind in ("set", "setmisfit") and r.random() < 0.35:
+                # a text sized against the space FIXED AT CREATION: it fits exactly, or it needs the next slot although the bytes up to
+                # the end of the (slot-rounded) storage would hold it - e.g. 10..15 characters into String(10), stored size 18
+                try:
+                    cont_ = nav(obj, path[:-1])
+                    s__ = path[-1]
+                    a0_ = int(getattr(type(cont_), s__[1]).get_offset(cont_)[1]) if s__[0] == "f" else int(cont_._get_offset(s__[1] if len(s__[1]) > 1 else s__[1][0]))
+                    S_ = int.from_bytes(image(buf)[a0_:a0_ + 8], "little")
+                    L_ = max(0, S_ - 9 + r.choice([-8, -1, 0, 1, 2, 6, 7]))
+                    nd_ = "".join(r.choice("abcxyz") for _ in range(L_))
+                    ne = nd_
+                    R.tags["op.set.string-sized-against-capacity"] += 1
+                except Exception:
+                    pass
             if T.has_zero_nd(st, nd_):
                 continue
             vs2, arg2 = vsexp(st, nd_, cache, "py")
@@ -793,6 +807,11 @@ def mutate_case(R, r, t, d, e, obj, view, cls, cache, buf, ops, exp, cctx, sx):
                 if kind == "badlen":
                     R.fail("C11:wrong-shape-accepted", f"{sx[:200]}: assigning a value of shape {nd_[1]} to {pstr(path)} (shape {sub[1]}) through the {hname} succeeds", c2)
                 # fitting? the space fixed at creation is the stored extent of the slot
+                if st[0] == "string" and slot_ext is not None:
+                    a0, a1 = slot_ext
+                    ch = [i for i in range(min(len(before), len(after))) if before[i] != after[i] and not a0 <= i < a1]
+                    if ch:
+                        R.fail("C11:overrun-accepted", f"{sx[:200]}: assigning {repr(nd_)[:60]} to the string at {pstr(path)} (space fixed at creation [{a0},{a1})) was accepted and changed bytes {ch[:8]} beyond it", c2)
                 new_e = replace_at(t, cur_e, path, ne) if ne is not None else None
                 if new_e is not None:
                     w2 = expect_str(t, new_e, cache)
@@ -806,11 +825,6 @@ def mutate_case(R, r, t, d, e, obj, view, cls, cache, buf, ops, exp, cctx, sx):
                         break
                 lo, hi = int(obj._offset), int(obj._offset) + int(obj._get_size() if hasattr(obj, "_get_size") else cls._size)
                 refs = "(ref " in sx or "(uref " in sx
-                if st[0] == "string" and slot_ext is not None:
-                    a0, a1 = slot_ext
-                    ch = [i for i in range(min(len(before), len(after))) if before[i] != after[i] and not a0 <= i < a1]
-                    if ch:
-                        R.fail("C11:overrun-accepted", f"{sx[:200]}: assigning {repr(nd_)[:60]} to the string at {pstr(path)} (space fixed at creation [{a0},{a1})) was accepted and changed bytes {ch[:8]} beyond it", c2)
                 if not refs:
                     ch = [i for i in range(min(len(before), len(after))) if before[i] != after[i] and not lo <= i < hi]
                     if ch:
